@@ -105,9 +105,40 @@ def kstr(k):
     return " ".join(f"{x:x}" for x in k)
 
 
+def _words(r, n, w):
+    """structured sparse data: little-endian w-byte words drawn from {0, 1, all-ones, random} (arrays with zero entries,
+    zero-padded records) - the inputs on which a value-dependent shortcut (zero-word/zero-packet fast path, table,
+    early-out) differs from the plain arithmetic"""
+    out = bytearray()
+    while len(out) < n:
+        c = r.randrange(6)
+        v = 0 if c <= 2 else (1 if c == 3 else ((1 << (8 * w)) - 1 if c == 4 else r.getrandbits(8 * w)))
+        out += v.to_bytes(w, "little")
+    off = r.choice((0, 0, 0, 1, 3, 4))          # mostly aligned to the word grid, sometimes shifted
+    return bytes((bytes(off) + bytes(out))[:n]) if off and r.random() < 0.3 else bytes(out[:n])
+
+
 def rbytes(r, n):
-    """byte mixtures: uniform, high-bit, zeros, 0xff, counting, runs"""
-    m = r.randrange(7)
+    """byte mixtures: uniform, high-bit, zeros, 0xff, counting, runs, sparse words, single non-zero byte"""
+    m = r.randrange(11)
+    if m == 7:
+        return _words(r, n, 8)
+    if m == 8:
+        return _words(r, n, r.choice((4, 16, 2)))
+    if m == 9:
+        out = bytearray(n)                       # all zero except a few bytes
+        for _ in range(r.randrange(1, 4)):
+            if n:
+                out[r.randrange(n)] = r.choice((1, 0x80, 0xFF, r.getrandbits(8)))
+        return bytes(out)
+    if m == 10:
+        out = bytearray(b"\xff" * n)              # all ones except a few zero bytes / one zero word
+        if n >= 8 and r.random() < 0.5:
+            k = 8 * r.randrange(n // 8)
+            out[k:k + 8] = bytes(8)
+        elif n:
+            out[r.randrange(n)] = 0
+        return bytes(out)
     if m == 0:
         return bytes(r.getrandbits(8) for _ in range(n))
     if m == 1:
